@@ -133,7 +133,33 @@ func kindOf(l logLine, daemon bool) string {
 
 func coqRec(s snap) string { return fmt.Sprintf("(mkRec %d %d)", s.State, s.StdoutSize) }
 
+// fillGaps: the VERIF_STATUS_LOG hook appends its line AFTER the record has been written; a
+// writer that is killed in between (the runner has no SIGINT handler until after its first write;
+// a daemon killed for a restart) leaves a record without a line.  Such a gap shows as a write that
+// starts from a record which is neither what the previous line stored nor any record stored
+// earlier (a lost update starts from an EARLIER record and is never taken for a gap).  The missing
+// write is put back as a line of pid -1 and judged like every other write.
+func fillGaps(lines []logLine) (out []logLine, gaps int) {
+	prev := snap{State: 0, StdoutSize: 0, Detail: "Unit Created"}
+	earlier := map[snap]bool{}
+	for i, l := range lines {
+		if i == 0 {
+			prev.WorkType = l.Old.WorkType
+		}
+		earlier[prev] = true
+		if l.Old != prev && !earlier[l.Old] && !l.Empty {
+			out = append(out, logLine{Pid: -1, File: l.File, Old: prev, New: l.Old})
+			earlier[l.Old] = true
+			gaps++
+		}
+		out = append(out, l)
+		prev = l.New
+	}
+	return out, gaps
+}
+
 func coqLog(lines []logLine, daemonPids map[int]bool) string {
+	lines, _ = fillGaps(lines)
 	es := make([]string, len(lines))
 	for i, l := range lines {
 		who := "Runner"
@@ -157,6 +183,29 @@ func fmtLog(lines []logLine) []string {
 // unit existed (violations then carry the -after-restart signature).
 func judgeLog(im *Impl, unit string, lines []logLine, restarted, releaseAsked bool, ctx map[string]interface{}) (violations int) {
 	prev := snap{State: 0, StdoutSize: 0, Detail: "Unit Created"}
+	lines, gaps := fillGaps(lines)
+	if gaps > 0 {
+		im.Hist("note:status-write-without-log-line(writer-killed-before-the-hook)")
+		// only a process that dies can lose a line: the runner once, a daemon once per restart
+		hidden := 0
+		for _, l := range lines {
+			if l.Pid == -1 {
+				hidden++
+				d := l.New.Detail
+				runnerish := d == "Not started yet" || strings.HasPrefix(d, "Running: PID") || d == "Killed" || strings.HasPrefix(d, "exit status") || strings.HasPrefix(d, "signal:")
+				if !restarted && !runnerish {
+					im.Violate(fmt.Sprintf("unit %s: the record (%d,%d,%q) was stored without a log line although no process was killed that writes it", unit, l.New.State, l.New.StdoutSize, l.New.Detail),
+						"c13-log-not-a-chain", map[string]interface{}{"ctx": ctx, "log": fmtLog(lines)})
+					violations++
+				}
+			}
+		}
+		if hidden > 1 && !restarted {
+			im.Violate(fmt.Sprintf("unit %s: %d status writes have no log line (at most the killed runner's last one can be missing)", unit, hidden),
+				"c13-log-not-a-chain", map[string]interface{}{"ctx": ctx, "log": fmtLog(lines)})
+			violations++
+		}
+	}
 	for i, l := range lines {
 		o, n := l.Old, l.New
 		if i == 0 {
